@@ -2,10 +2,12 @@
 //!
 //! 1-4 real OS threads share ONE allocator and run under a deterministic baton-passing scheduler
 //! that is driven by the `verif` hooks of `Atom`: a worker blocks in the `before` hook (and at the
-//! boundary between two calls) until the scheduler (main thread) grants it exactly one step.  A
-//! granted worker runs from its scheduling point through one atomic access up to its next
-//! scheduling point and hands the baton back, so at any time exactly one thread runs and an
-//! execution is a function of (scenario, schedule).  A schedule is a list of thread ids; an entry
+//! boundary between two calls) until the scheduler grants it exactly one step.  A granted worker
+//! runs from its scheduling point through one atomic access up to its next scheduling point, so at
+//! any time exactly one thread runs and an execution is a function of (scenario, schedule).  The
+//! scheduler is not a thread of its own: whoever holds the baton records its step, asks the
+//! schedule source for the next thread and either continues itself (no context switch) or wakes
+//! that thread and blocks; the main thread only starts a run and collects its transcript.  A schedule is a list of thread ids; an entry
 //! is either "start the next call" (no memory access, `CALL` line; `mstep` of an idle thread) or
 //! "one atomic access" (`S` line).
 //!
@@ -29,7 +31,7 @@ use std::collections::HashSet;
 use std::fmt::Write as FmtWrite;
 use std::io::Write;
 use std::panic::{AssertUnwindSafe, catch_unwind};
-use std::sync::Mutex;
+use std::sync::{Arc, Mutex};
 use std::sync::atomic::{AtomicU8, AtomicU16, AtomicU32, AtomicU64, AtomicUsize, Ordering};
 use std::thread::Thread;
 
@@ -96,20 +98,33 @@ enum Ev {
 // ------------------------------------------------------------------------------------------------
 static GO: [AtomicU32; MAXT] = [const { AtomicU32::new(0) }; MAXT];
 static BACK: AtomicU32 = AtomicU32::new(0);
-static SPIN: AtomicUsize = AtomicUsize::new(20000);
+static SPIN: AtomicUsize = AtomicUsize::new(100);
 static ALLOC: AtomicUsize = AtomicUsize::new(0);
-static T_SNAP: AtomicUsize = AtomicUsize::new(0);
-static T_GRANT: AtomicUsize = AtomicUsize::new(0);
 static EVENTS: Mutex<Vec<Ev>> = Mutex::new(Vec::new());
 static NEXT_CALL: Mutex<[Option<CallSpec>; MAXT]> = Mutex::new([None; MAXT]);
 static THREADS: Mutex<Vec<Thread>> = Mutex::new(Vec::new());
-static MAIN: Mutex<Option<Thread>> = Mutex::new(None);
+/// the run in progress: owned by whoever holds the baton
+static DRV: Mutex<Option<Driver>> = Mutex::new(None);
+
+struct Driver {
+    ex: Exec<'static>,
+    chooser: Box<dyn Chooser>,
+}
+unsafe impl Send for Driver {}
+
+/// a schedule source: which thread makes the next step (None: the run is over)
+trait Chooser {
+    fn next(&mut self, ex: &mut Exec) -> Option<usize>;
+}
 
 thread_local! {
     static TID: Cell<usize> = const { Cell::new(NONE) };
     static PRE: Cell<u64> = const { Cell::new(0) };
     static PANIC_MSG: RefCell<String> = const { RefCell::new(String::new()) };
     static MAIN_T: RefCell<Option<Thread>> = const { RefCell::new(None) };
+    /// inside the scheduler (snapshots run allocator code on this thread): hooks pass through
+    static IN_SCHED: Cell<bool> = const { Cell::new(false) };
+    static WORKERS: RefCell<Vec<Thread>> = const { RefCell::new(Vec::new()) };
 }
 
 fn read_mem(addr: usize, width: usize) -> u64 {
@@ -124,8 +139,41 @@ fn read_mem(addr: usize, width: usize) -> u64 {
     }
 }
 
-/// worker -> scheduler: I am at a scheduling point
-fn yield_to_main() {
+fn wait_flag(f: &AtomicU32) {
+    let spin = SPIN.load(Ordering::Relaxed);
+    let mut n = 0usize;
+    loop {
+        if f.load(Ordering::Acquire) == 1 {
+            f.store(0, Ordering::Relaxed);
+            return;
+        }
+        if n < spin {
+            n += 1;
+            std::hint::spin_loop();
+        } else {
+            // futex wait; a stale token only costs one more round
+            std::thread::park();
+        }
+    }
+}
+
+/// hand the baton to worker `t`
+fn wake(t: usize) {
+    GO[t].store(1, Ordering::Release);
+    WORKERS.with(|w| {
+        let w = w.borrow();
+        if let Some(th) = w.get(t) {
+            th.unpark();
+        } else {
+            drop(w);
+            let ths = THREADS.lock().unwrap().clone();
+            ths[t].unpark();
+            WORKERS.with(|w| *w.borrow_mut() = ths);
+        }
+    });
+}
+
+fn wake_main() {
     BACK.store(1, Ordering::Release);
     MAIN_T.with(|m| {
         if let Some(t) = m.borrow().as_ref() {
@@ -134,57 +182,48 @@ fn yield_to_main() {
     });
 }
 
-/// worker: block until the scheduler grants one step
-fn wait_grant(tid: usize) {
-    let spin = SPIN.load(Ordering::Relaxed);
-    let mut n = 0usize;
-    loop {
-        if GO[tid].load(Ordering::Acquire) == 1 {
-            GO[tid].store(0, Ordering::Relaxed);
-            return;
+/// The holder of the baton is at a scheduling point: record what it did, ask for the next thread.
+/// Returns true if `me` continues (it was chosen again); otherwise the baton has been passed on.
+fn sched_point(me: usize) -> bool {
+    IN_SCHED.with(|s| s.set(true));
+    let next = {
+        let mut g = DRV.lock().unwrap();
+        let d = g.as_mut().expect("scheduling point without a run");
+        d.ex.absorb();
+        let n = d.chooser.next(&mut d.ex);
+        if let Some(t) = n {
+            d.ex.prepare(t);
         }
-        if n < spin {
-            n += 1;
-            std::hint::spin_loop();
-        } else {
-            std::thread::park();
+        n
+    };
+    IN_SCHED.with(|s| s.set(false));
+    match next {
+        Some(t) if t == me => true,
+        Some(t) => {
+            wake(t);
+            false
         }
-    }
-}
-
-/// scheduler: grant one step to `tid` and wait until it reaches its next scheduling point
-fn grant(tid: usize, threads: &[Thread]) {
-    GO[tid].store(1, Ordering::Release);
-    threads[tid].unpark();
-    let spin = SPIN.load(Ordering::Relaxed);
-    let mut n = 0usize;
-    loop {
-        if BACK.load(Ordering::Acquire) == 1 {
-            BACK.store(0, Ordering::Relaxed);
-            return;
-        }
-        if n < spin {
-            n += 1;
-            std::hint::spin_loop();
-        } else {
-            std::thread::park();
+        None => {
+            wake_main();
+            false
         }
     }
 }
 
 fn hook_before(_kind: Kind, addr: usize, width: usize) {
     let tid = TID.with(|t| t.get());
-    if tid == NONE {
+    if tid == NONE || IN_SCHED.with(|s| s.get()) {
         return;
     }
-    yield_to_main();
-    wait_grant(tid);
+    if !sched_point(tid) {
+        wait_flag(&GO[tid]);
+    }
     PRE.with(|p| p.set(read_mem(addr, width)));
 }
 
 fn hook_after(kind: Kind, addr: usize, width: usize, value: u64, ok: bool) {
     let tid = TID.with(|t| t.get());
-    if tid == NONE {
+    if tid == NONE || IN_SCHED.with(|s| s.get()) {
         return;
     }
     let newv = read_mem(addr, width);
@@ -228,15 +267,30 @@ fn exec_caught(alloc: &LLFree, c: CallSpec) -> Res {
 fn worker(tid: usize, main: Thread) {
     TID.with(|t| t.set(tid));
     MAIN_T.with(|m| *m.borrow_mut() = Some(main));
+    let mut granted = false;
     loop {
-        wait_grant(tid);
+        // the boundary between two calls is a scheduling point
+        if !granted {
+            wait_flag(&GO[tid]);
+        }
         let c = NEXT_CALL.lock().unwrap()[tid].take().expect("granted without a call");
         EVENTS.lock().unwrap().push(Ev::Call(tid, c));
         let alloc = unsafe { &*(ALLOC.load(Ordering::Acquire) as *const LLFree<'static>) };
         let r = exec_caught(alloc, c);
         EVENTS.lock().unwrap().push(Ev::Ret(tid, r));
-        yield_to_main();
+        granted = sched_point(tid);
     }
+}
+
+/// main thread: run `ex` under `chooser` to completion
+fn drive(ex: Exec<'static>, chooser: Box<dyn Chooser>) -> Done {
+    *DRV.lock().unwrap() = Some(Driver { ex, chooser });
+    if !sched_point(NONE) {
+        // the baton is with the workers until the schedule source says the run is over
+        wait_flag(&BACK);
+    }
+    let d = DRV.lock().unwrap().take().expect("driver");
+    d.ex.finish()
 }
 
 // ------------------------------------------------------------------------------------------------
@@ -528,9 +582,9 @@ struct Env {
     snap: Bufs,
     classing: Classing,
     frames: usize,
-    threads: Vec<Thread>,
     snapshots: bool,
 }
+unsafe impl Sync for Env {}
 
 struct Exec<'a> {
     env: &'a Env,
@@ -679,11 +733,6 @@ impl<'a> Exec<'a> {
         if !self.env.snapshots {
             return;
         }
-        let t0 = std::time::Instant::now();
-        self.snapshot2();
-        T_SNAP.fetch_add(t0.elapsed().as_nanos() as usize, Ordering::Relaxed);
-    }
-    fn snapshot2(&mut self) {
         let env = self.env;
         env.snap.zero();
         unsafe { std::ptr::copy_nonoverlapping(env.bufs.lower, env.snap.lower, env.bufs.lower_len) };
@@ -773,8 +822,8 @@ impl<'a> Exec<'a> {
         (0..self.st.len()).filter(|&t| self.enabled(t)).collect()
     }
 
-    /// grant one step to thread t (must be enabled)
-    fn step(&mut self, t: usize) {
+    /// thread t (enabled) makes the next step: an idle thread is given its next call
+    fn prepare(&mut self, t: usize) {
         if self.st[t] == St::Idle {
             let c = self.next_call(t).expect("step of a finished thread");
             self.next[t] += 1;
@@ -782,12 +831,15 @@ impl<'a> Exec<'a> {
                 self.last[t] = None;
             }
             NEXT_CALL.lock().unwrap()[t] = Some(c);
+            // the call counts as started from here on (its CALL line follows with the next events)
+            self.st[t] = St::Running(true);
         }
         self.sched.push(t as u8);
         self.cur = Some(t);
-        let t0 = std::time::Instant::now();
-        grant(t, &self.env.threads);
-        T_GRANT.fetch_add(t0.elapsed().as_nanos() as usize, Ordering::Relaxed);
+    }
+
+    /// record what the step that just ended did
+    fn absorb(&mut self) {
         let evs: Vec<Ev> = std::mem::take(&mut *EVENTS.lock().unwrap());
         let mut wrote = false;
         for ev in evs {
@@ -912,140 +964,199 @@ impl Sink<'_> {
     }
 }
 
-/// finish a run: every enabled thread one step in turn
-fn round_robin(ex: &mut Exec) {
-    let n = ex.st.len();
-    let mut t = 0;
-    while ex.any_enabled() {
-        if ex.enabled(t) {
-            ex.step(t);
+/// round-robin: every enabled thread one step in turn
+struct RoundRobin {
+    t: usize,
+}
+impl RoundRobin {
+    fn pick(&mut self, ex: &mut Exec) -> Option<usize> {
+        let n = ex.st.len();
+        if !ex.any_enabled() {
+            return None;
         }
-        t = (t + 1) % n;
+        loop {
+            let t = self.t % n;
+            self.t += 1;
+            if ex.enabled(t) {
+                return Some(t);
+            }
+        }
     }
 }
 
 /// replay: entries naming a thread that cannot move are skipped; then round-robin
-fn run_replay(env: &Env, scn: &Scenario, sched: &[usize], run: u64, mode: &str) -> Done {
-    let mut ex = Exec::new(env, scn, run, mode);
-    for &t in sched {
-        if t < ex.st.len() && ex.enabled(t) {
-            ex.step(t);
-        }
+struct Replay {
+    sched: Vec<usize>,
+    pos: usize,
+    rr: RoundRobin,
+}
+impl Replay {
+    fn new(sched: &[usize]) -> Self {
+        Replay { sched: sched.to_vec(), pos: 0, rr: RoundRobin { t: 0 } }
     }
-    round_robin(&mut ex);
-    ex.finish()
+}
+impl Chooser for Replay {
+    fn next(&mut self, ex: &mut Exec) -> Option<usize> {
+        while self.pos < self.sched.len() {
+            let t = self.sched[self.pos];
+            self.pos += 1;
+            if t < ex.st.len() && ex.enabled(t) {
+                return Some(t);
+            }
+        }
+        self.rr.pick(ex)
+    }
 }
 
-/// preemption-bounded DFS over the schedules of a scenario.  A preemption is a switch away from a
+fn run_replay(env: &'static Env, scn: &'static Scenario, sched: &[usize], run: u64, mode: &str) -> Done {
+    drive(Exec::new(env, scn, run, mode), Box::new(Replay::new(sched)))
+}
+
+/// Preemption-bounded DFS over the schedules of a scenario.  A preemption is a switch away from a
 /// thread that is in the middle of a call; switches at call boundaries are free.  A call start is
 /// immediately followed by the first access of the same thread (the call start touches no memory,
 /// so every schedule is equivalent to one of this shape).
-fn run_exhaustive(env: &Env, scn: &Scenario, bound: usize, shard: (u64, u64), max_runs: u64, sink: &mut Sink, run0: &mut u64) {
-    struct Node {
-        choices: Vec<u8>,
-        idx: usize,
+struct Node {
+    choices: Vec<u8>,
+    idx: usize,
+}
+const SHARD_DEPTH: usize = 3;
+#[derive(Default)]
+struct Dfs {
+    stack: Vec<Node>,
+    bound: usize,
+    shard: (u64, u64),
+    // per run
+    depth: usize,
+    preempts: usize,
+    branch: Vec<u8>,
+    pruned: bool,
+}
+struct DfsChooser(Arc<Mutex<Dfs>>);
+impl Chooser for DfsChooser {
+    fn next(&mut self, ex: &mut Exec) -> Option<usize> {
+        let mut g = self.0.lock().unwrap();
+        let d = &mut *g;
+        if !ex.any_enabled() {
+            return None;
+        }
+        let t;
+        if d.depth < d.stack.len() {
+            let n = &d.stack[d.depth];
+            t = n.choices[n.idx] as usize;
+            if n.choices.len() > 1 && d.branch.len() < SHARD_DEPTH {
+                d.branch.push(n.idx as u8);
+            }
+        } else {
+            let en = ex.enabled_list();
+            let mut ch: Vec<u8> = Vec::new();
+            match ex.cur {
+                Some(c) if ex.st[c] == St::Running(true) => ch.push(c as u8),
+                Some(c) if ex.midcall(c) => {
+                    ch.push(c as u8);
+                    if d.preempts < d.bound && !d.pruned {
+                        ch.extend(en.iter().filter(|&&x| x != c).map(|&x| x as u8));
+                    }
+                }
+                _ => {
+                    if d.pruned {
+                        ch.push(en[0] as u8);
+                    } else {
+                        ch.extend(en.iter().map(|&x| x as u8));
+                    }
+                }
+            }
+            t = ch[0] as usize;
+            if ch.len() > 1 && d.branch.len() < SHARD_DEPTH {
+                d.branch.push(0);
+            }
+            d.stack.push(Node { choices: ch, idx: 0 });
+        }
+        if d.branch.len() == SHARD_DEPTH && !d.pruned && d.shard.1 > 1 && sched_hash("", &d.branch) % d.shard.1 != d.shard.0 {
+            d.pruned = true; // another shard owns this subtree: finish the run, explore nothing below
+        }
+        if let Some(c) = ex.cur {
+            if t != c && ex.midcall(c) {
+                d.preempts += 1;
+            }
+        }
+        d.depth += 1;
+        Some(t)
     }
-    const SHARD_DEPTH: usize = 3;
-    let mut stack: Vec<Node> = Vec::new();
+}
+
+fn run_exhaustive(env: &'static Env, scn: &'static Scenario, bound: usize, shard: (u64, u64), max_runs: u64, sink: &mut Sink, run0: &mut u64) {
+    let dfs = Arc::new(Mutex::new(Dfs { bound, shard, ..Default::default() }));
     let mut count = 0u64;
     loop {
-        let mut ex = Exec::new(env, scn, *run0, "exhaustive");
-        let mut depth = 0usize;
-        let mut preempts = 0usize;
-        let mut branch: Vec<u8> = Vec::new(); // choices at the first branching nodes
-        let mut pruned = false;
-        while ex.any_enabled() {
-            let t;
-            if depth < stack.len() {
-                let n = &stack[depth];
-                t = n.choices[n.idx] as usize;
-                if n.choices.len() > 1 && branch.len() < SHARD_DEPTH {
-                    branch.push(n.idx as u8);
-                }
-            } else {
-                let en = ex.enabled_list();
-                let mut ch: Vec<u8> = Vec::new();
-                match ex.cur {
-                    Some(c) if ex.st[c] == St::Running(true) => ch.push(c as u8),
-                    Some(c) if ex.midcall(c) => {
-                        ch.push(c as u8);
-                        if preempts < bound && !pruned {
-                            ch.extend(en.iter().filter(|&&x| x != c).map(|&x| x as u8));
-                        }
-                    }
-                    _ => {
-                        if pruned {
-                            ch.push(en[0] as u8);
-                        } else {
-                            ch.extend(en.iter().map(|&x| x as u8));
-                        }
-                    }
-                }
-                t = ch[0] as usize;
-                if ch.len() > 1 && branch.len() < SHARD_DEPTH {
-                    branch.push(0);
-                }
-                stack.push(Node { choices: ch, idx: 0 });
-            }
-            if branch.len() == SHARD_DEPTH && !pruned && shard.1 > 1 && sched_hash("", &branch) % shard.1 != shard.0 {
-                pruned = true; // another shard owns this subtree: finish the run, explore nothing below
-            }
-            if let Some(c) = ex.cur {
-                if t != c && ex.midcall(c) {
-                    preempts += 1;
-                }
-            }
-            ex.step(t);
-            depth += 1;
+        {
+            let mut d = dfs.lock().unwrap();
+            d.depth = 0;
+            d.preempts = 0;
+            d.branch.clear();
+            d.pruned = false;
         }
-        let mine = if branch.len() == SHARD_DEPTH { !pruned } else { shard.1 <= 1 || sched_hash("", &branch) % shard.1 == shard.0 };
-        let d = ex.finish();
+        let done = drive(Exec::new(env, scn, *run0, "exhaustive"), Box::new(DfsChooser(dfs.clone())));
+        let mut d = dfs.lock().unwrap();
+        let mine = if d.branch.len() == SHARD_DEPTH { !d.pruned } else { shard.1 <= 1 || sched_hash("", &d.branch) % shard.1 == shard.0 };
         if mine {
-            sink.emit(scn, d, false);
+            sink.emit(scn, done, false);
             *run0 += 1;
             count += 1;
         }
         // backtrack
         loop {
-            match stack.last_mut() {
+            match d.stack.last_mut() {
                 None => break,
                 Some(n) if n.idx + 1 < n.choices.len() => {
                     n.idx += 1;
                     break;
                 }
                 Some(_) => {
-                    stack.pop();
+                    d.stack.pop();
                 }
             }
         }
-        if stack.is_empty() || count >= max_runs {
+        if d.stack.is_empty() || count >= max_runs {
             break;
         }
     }
 }
 
 /// PCT (Burckhardt et al.): random thread priorities, `depth - 1` priority change points
-fn pct_schedule(ex: &mut Exec, rng: &mut Rng, depth: usize, klen: usize) {
-    let n = ex.st.len();
-    let mut prio: Vec<usize> = (0..n).map(|i| depth + i).collect();
-    for i in (1..n).rev() {
-        let j = rng.below(i as u64 + 1) as usize;
-        prio.swap(i, j);
+struct Pct {
+    prio: Vec<usize>,
+    change: Vec<usize>,
+    depth: usize,
+    s: usize,
+}
+impl Pct {
+    fn new(n: usize, rng: &mut Rng, depth: usize, klen: usize) -> Self {
+        let mut prio: Vec<usize> = (0..n).map(|i| depth + i).collect();
+        for i in (1..n).rev() {
+            let j = rng.below(i as u64 + 1) as usize;
+            prio.swap(i, j);
+        }
+        let mut change: Vec<usize> = (0..depth.saturating_sub(1)).map(|_| rng.below(klen.max(1) as u64) as usize).collect();
+        change.sort();
+        Pct { prio, change, depth, s: 0 }
     }
-    let mut change: Vec<usize> = (0..depth.saturating_sub(1)).map(|_| rng.below(klen.max(1) as u64) as usize).collect();
-    change.sort();
-    let mut s = 0usize;
-    while ex.any_enabled() {
+}
+impl Chooser for Pct {
+    fn next(&mut self, ex: &mut Exec) -> Option<usize> {
         let en = ex.enabled_list();
-        let mut best = *en.iter().max_by_key(|&&t| prio[t]).unwrap();
-        for (i, &c) in change.iter().enumerate() {
-            if c == s {
-                prio[best] = depth - 1 - i.min(depth - 1);
-                best = *en.iter().max_by_key(|&&t| prio[t]).unwrap();
+        if en.is_empty() {
+            return None;
+        }
+        let mut best = *en.iter().max_by_key(|&&t| self.prio[t]).unwrap();
+        for i in 0..self.change.len() {
+            if self.change[i] == self.s {
+                self.prio[best] = self.depth - 1 - i.min(self.depth - 1);
+                best = *en.iter().max_by_key(|&&t| self.prio[t]).unwrap();
             }
         }
-        ex.step(best);
-        s += 1;
+        self.s += 1;
+        Some(best)
     }
 }
 
@@ -1053,36 +1164,79 @@ fn default_budget() -> usize {
     2 * TREE_HUGE * (4 + 3 * ROWS) + 16
 }
 
-/// freeze mode: after every prefix of the base schedule, each in-flight call runs alone
-fn run_freeze(env: &Env, scn: &Scenario, base: &[usize], budget: usize, sample: usize, rng: &mut Rng, sink: &mut Sink, run0: &mut u64) {
-    // the base run: who is mid-call after k steps
-    let mut ex = Exec::new(env, scn, *run0, "freeze-base");
-    let mut mid: Vec<Vec<usize>> = Vec::new();
-    let mut actual: Vec<usize> = Vec::new();
-    let mut feed = base.iter().copied();
-    let n = ex.st.len();
-    let mut rr = 0usize;
-    while ex.any_enabled() {
-        let t = loop {
-            match feed.next() {
-                Some(t) if t < n && ex.enabled(t) => break t,
-                Some(_) => continue,
-                None => {
-                    while !ex.enabled(rr % n) {
-                        rr += 1;
-                    }
-                    let t = rr % n;
-                    rr += 1;
-                    break t;
-                }
-            }
-        };
-        ex.step(t);
-        actual.push(t);
-        mid.push((0..n).filter(|&x| ex.midcall(x)).collect());
+/// the base run of freeze mode: remembers who is in the middle of a call after every step
+struct FreezeBase {
+    inner: Replay,
+    mid: Arc<Mutex<Vec<Vec<usize>>>>,
+}
+impl Chooser for FreezeBase {
+    fn next(&mut self, ex: &mut Exec) -> Option<usize> {
+        if !ex.sched.is_empty() {
+            let m: Vec<usize> = (0..ex.st.len()).filter(|&x| ex.midcall(x)).collect();
+            self.mid.lock().unwrap().push(m);
+        }
+        self.inner.next(ex)
     }
-    sink.emit(scn, ex.finish(), true);
+}
+
+/// freeze mode: replay k steps of the base schedule, then thread t alone until its call returns
+struct Freeze {
+    prefix: Vec<usize>,
+    pos: usize,
+    t: usize,
+    phase: u8,
+    solo: usize,
+    before: usize,
+    budget: usize,
+    rr: RoundRobin,
+}
+impl Chooser for Freeze {
+    fn next(&mut self, ex: &mut Exec) -> Option<usize> {
+        if self.phase == 0 {
+            if self.pos < self.prefix.len() {
+                self.pos += 1;
+                return Some(self.prefix[self.pos - 1]);
+            }
+            self.phase = 1;
+            self.before = ex.call_steps[self.t];
+        }
+        let (t, k) = (self.t, self.prefix.len());
+        if self.phase == 1 {
+            if ex.midcall(t) {
+                self.solo += 1;
+                if self.solo == self.budget + 1 {
+                    ex.hfail(format!("solo budget: thread {t} frozen at step {k} exceeds {} steps", self.budget));
+                }
+                if self.solo > 100 * self.budget + 1000 {
+                    eprintln!("{}HFAIL solo stuck: thread {t} frozen at step {k} does not finish", ex.text);
+                    eprintln!("schedrun: solo run does not terminate, giving up");
+                    std::process::exit(3);
+                }
+                return Some(t);
+            }
+            let res = ex.last_res[t].clone().map(|r| r.text()).unwrap_or_else(|| "none".into());
+            let _ = writeln!(
+                ex.text,
+                "SOLO {t} steps={} before={} frozen_at={k} budget={} result={res}",
+                self.solo, self.before, self.budget
+            );
+            self.phase = 2;
+        }
+        self.rr.pick(ex)
+    }
+}
+
+#[allow(clippy::too_many_arguments)]
+fn run_freeze(env: &'static Env, scn: &'static Scenario, base: &[usize], budget: usize, sample: usize, rng: &mut Rng, sink: &mut Sink, run0: &mut u64) {
+    let mid = Arc::new(Mutex::new(Vec::new()));
+    let done = drive(
+        Exec::new(env, scn, *run0, "freeze-base"),
+        Box::new(FreezeBase { inner: Replay::new(base), mid: mid.clone() }),
+    );
+    let actual: Vec<usize> = done.sched.iter().map(|&t| t as usize).collect();
+    sink.emit(scn, done, true);
     *run0 += 1;
+    let mid = mid.lock().unwrap().clone();
     let mut points: Vec<(usize, usize)> = Vec::new();
     for (k, m) in mid.iter().enumerate() {
         for &t in m {
@@ -1098,31 +1252,9 @@ fn run_freeze(env: &Env, scn: &Scenario, base: &[usize], budget: usize, sample: 
         points.sort();
     }
     for (k, t) in points {
-        let mut ex = Exec::new(env, scn, *run0, "freeze");
-        for &x in &actual[..k] {
-            ex.step(x);
-        }
-        let before = ex.call_steps[t];
-        let mut solo = 0usize;
-        while ex.midcall(t) {
-            ex.step(t);
-            solo += 1;
-            if solo == budget + 1 {
-                ex.hfail(format!("solo budget: thread {t} frozen at step {k} exceeds {budget} steps"));
-            }
-            if solo > 100 * budget + 1000 {
-                ex.hfail(format!("solo stuck: thread {t} frozen at step {k} does not finish"));
-                let d = ex.text.clone();
-                sink.w.write_all(d.as_bytes()).unwrap();
-                sink.w.flush().unwrap();
-                eprintln!("schedrun: solo run does not terminate, giving up");
-                std::process::exit(3);
-            }
-        }
-        let res = ex.last_res[t].clone().map(|r| r.text()).unwrap_or_else(|| "none".into());
-        let _ = writeln!(ex.text, "SOLO {t} steps={solo} before={before} frozen_at={k} budget={budget} result={res}");
-        round_robin(&mut ex);
-        sink.emit(scn, ex.finish(), true);
+        let ch = Freeze { prefix: actual[..k].to_vec(), pos: 0, t, phase: 0, solo: 0, before: 0, budget, rr: RoundRobin { t: 0 } };
+        let done = drive(Exec::new(env, scn, *run0, "freeze"), Box::new(ch));
+        sink.emit(scn, done, true);
         *run0 += 1;
     }
 }
@@ -1181,11 +1313,15 @@ fn check_layout(env: &Env) {
     drop(a);
 }
 
+fn parse_sched(s: &str) -> Vec<usize> {
+    s.split(',').map(|x| x.trim()).filter(|x| !x.is_empty() && *x != "-").map(|x| x.parse().expect("--schedule t,t,..")).collect()
+}
+
 fn usage() -> ! {
     eprintln!(
         "usage: schedrun --mode exhaustive|pct|replay|freeze --scenario <name,name,..|all> [--scenario-file f]\n\
          \x20  [--preemptions P] [--runs N] [--depth d] [--seed s] [--schedule 0,1,0,..] [--budget B] [--sample m]\n\
-         \x20  [--snapshots] [--shard i/n] [--max-runs M] [--spin n] [--out file] [--list]"
+         \x20  [--snapshots] [--shard i/n] [--max-runs M] [--spin n] [--out file] [--list] [--verbose]"
     );
     std::process::exit(2)
 }
@@ -1223,6 +1359,7 @@ fn main() {
     if scns.is_empty() {
         usage();
     }
+    let scns: &'static [Scenario] = Box::leak(scns.into_boxed_slice());
     let shard: (u64, u64) = match args.get("shard") {
         Some(s) => {
             let (a, b) = s.split_once('/').expect("--shard i/n");
@@ -1230,8 +1367,7 @@ fn main() {
         }
         None => (0, 1),
     };
-    SPIN.store(args.num("spin", 20000) as usize, Ordering::Relaxed);
-    let max_frames = scns.iter().map(|s| s.frames).max().unwrap();
+    SPIN.store(args.num("spin", 100) as usize, Ordering::Relaxed);
 
     // panics of the code under test: remember "<file>:<line> <message>" for the catching thread
     std::panic::set_hook(Box::new(|info| {
@@ -1245,22 +1381,21 @@ fn main() {
         };
         let msg = msg.replace(['\n', '\r'], " ");
         let text = format!("{loc} {msg}");
-        if TID.with(|t| t.get()) == NONE && !IN_TEST.with(|t| t.get()) {
+        if !QUIET.with(|t| t.get()) && TID.with(|t| t.get()) == NONE {
             eprintln!("schedrun: panic {text}");
         }
         PANIC_MSG.with(|m| *m.borrow_mut() = text);
     }));
 
-    let (classing, _) = Classing::simple(1);
     let me = std::thread::current();
-    *MAIN.lock().unwrap() = Some(me.clone());
+    MAIN_T.with(|m| *m.borrow_mut() = Some(me.clone()));
     let mut threads = Vec::new();
     for tid in 0..MAXT {
         let m = me.clone();
         let h = std::thread::Builder::new().name(format!("w{tid}")).spawn(move || worker(tid, m)).expect("spawn");
         threads.push(h.thread().clone());
     }
-    *THREADS.lock().unwrap() = threads.clone();
+    *THREADS.lock().unwrap() = threads;
     set_hooks(Some((hook_before, hook_after)));
 
     let mut w = out(args.get("out"));
@@ -1274,45 +1409,44 @@ fn main() {
     let mut sizes: Vec<usize> = scns.iter().map(|s| s.frames).collect();
     sizes.sort();
     sizes.dedup();
-    let _ = max_frames;
     for frames in sizes {
-        let env = Env {
+        let classing = Classing::simple(1).0;
+        let env: &'static Env = Box::leak(Box::new(Env {
             bufs: Bufs::new(frames, &classing),
             snap: Bufs::new(frames, &classing),
-            classing: Classing::simple(1).0,
+            classing,
             frames,
-            threads: threads.clone(),
             snapshots,
-        };
-        IN_TEST.with(|t| t.set(true));
-        check_layout(&env);
-        for (si, scn) in scns.iter().enumerate().filter(|(_, s)| s.frames == frames) {
+        }));
+        QUIET.with(|t| t.set(true));
+        check_layout(env);
+        for scn in scns.iter().filter(|s| s.frames == frames) {
             let before = sink.tot.emitted;
             match mode.as_str() {
                 "exhaustive" => {
                     let p = args.num("preemptions", 2) as usize;
-                    run_exhaustive(&env, scn, p, shard, args.num("max-runs", u64::MAX), &mut sink, &mut run);
+                    run_exhaustive(env, scn, p, shard, args.num("max-runs", u64::MAX), &mut sink, &mut run);
                 }
                 "pct" => {
                     let runs = args.num("runs", 100);
                     let depth = args.num("depth", 3) as usize;
                     // length estimate: the round-robin run
-                    let klen = run_replay(&env, scn, &[], 0, "probe").sched.len();
+                    let klen = run_replay(env, scn, &[], 0, "probe").sched.len();
                     for r in 0..runs {
                         if r % shard.1 != shard.0 {
                             continue;
                         }
                         let mut rng = Rng::new(seed ^ sched_hash(&scn.name, &[]).rotate_left(17) ^ r.wrapping_mul(0x9e37_79b9_7f4a_7c15));
                         let d = 1 + rng.below(depth.max(1) as u64) as usize;
-                        let mut ex = Exec::new(&env, scn, run, "pct");
-                        pct_schedule(&mut ex, &mut rng, d, klen + klen / 2);
-                        sink.emit(scn, ex.finish(), true);
+                        let ch = Pct::new(scn.threads.len(), &mut rng, d, klen + klen / 2);
+                        let done = drive(Exec::new(env, scn, run, "pct"), Box::new(ch));
+                        sink.emit(scn, done, true);
                         run += 1;
                     }
                 }
                 "replay" => {
-                    let sched: Vec<usize> = args.get("schedule").unwrap_or("").split(',').filter(|s| !s.is_empty()).map(|s| s.trim().parse().expect("schedule")).collect();
-                    let d = run_replay(&env, scn, &sched, run, "replay");
+                    let sched = parse_sched(args.get("schedule").unwrap_or(""));
+                    let d = run_replay(env, scn, &sched, run, "replay");
                     sink.emit(scn, d, false);
                     run += 1;
                 }
@@ -1322,28 +1456,28 @@ fn main() {
                     let mut rng = Rng::new(seed ^ sched_hash(&scn.name, &[]) ^ 0x5eed);
                     let mut bases: Vec<Vec<usize>> = Vec::new();
                     if let Some(s) = args.get("schedule") {
-                        bases.push(s.split(',').filter(|s| !s.is_empty()).map(|s| s.trim().parse().expect("schedule")).collect());
+                        bases.push(parse_sched(s));
                     } else {
                         bases.push(vec![]); // round-robin
-                        let klen = run_replay(&env, scn, &[], 0, "probe").sched.len();
-                        for r in 0..args.num("runs", 4) {
-                            let mut ex = Exec::new(&env, scn, 0, "probe");
+                        let klen = run_replay(env, scn, &[], 0, "probe").sched.len();
+                        for _ in 0..args.num("runs", 4) {
                             let d = 1 + rng.below(3) as usize;
-                            pct_schedule(&mut ex, &mut rng, d, klen + klen / 2);
-                            let _ = r;
-                            bases.push(ex.finish().sched.iter().map(|&t| t as usize).collect());
+                            let ch = Pct::new(scn.threads.len(), &mut rng, d, klen + klen / 2);
+                            let done = drive(Exec::new(env, scn, 0, "probe"), Box::new(ch));
+                            bases.push(done.sched.iter().map(|&t| t as usize).collect());
                         }
+                        bases.sort();
+                        bases.dedup();
                     }
                     for (bi, b) in bases.iter().enumerate() {
                         if bi as u64 % shard.1 != shard.0 {
                             continue;
                         }
-                        run_freeze(&env, scn, b, budget, sample, &mut rng, &mut sink, &mut run);
+                        run_freeze(env, scn, b, budget, sample, &mut rng, &mut sink, &mut run);
                     }
                 }
                 _ => usage(),
             }
-            let _ = si;
             per.push((scn.name.clone(), sink.tot.emitted - before));
         }
     }
@@ -1363,7 +1497,6 @@ fn main() {
         tot.steps as f64 / dt.max(1e-9)
     );
     if args.flag("verbose") {
-        eprintln!("  time in snapshots {:.3}s, in grant {:.3}s", T_SNAP.load(Ordering::Relaxed) as f64 / 1e9, T_GRANT.load(Ordering::Relaxed) as f64 / 1e9);
         for (n, c) in per {
             eprintln!("  {n}: {c}");
         }
@@ -1373,6 +1506,6 @@ fn main() {
 }
 
 thread_local! {
-    /// set on the main thread: expected panics (snapshots of a crashing recover) are not echoed
-    static IN_TEST: Cell<bool> = const { Cell::new(false) };
+    /// expected panics (code under test, snapshots of a crashing recover) are not echoed
+    static QUIET: Cell<bool> = const { Cell::new(false) };
 }
